@@ -72,6 +72,7 @@ def GateRow.isNoisy (g : GateRow) : Bool := g.has 1
 def GateRow.producesResults (g : GateRow) : Bool := g.has 3
 def GateRow.targetsPairs (g : GateRow) : Bool := g.has 6
 def GateRow.isReset (g : GateRow) : Bool := g.has 13
+def GateRow.noEffectOnQubits (g : GateRow) : Bool := g.has 14
 
 def hasXList (l : List P1) : List Nat :=
   (l.zipIdx).filterMap fun (p, i) => if p.hasX then some i else none
